@@ -47,18 +47,33 @@ impl<'r> Series<'r> {
         if name == key::GENOTYPE {
             match self.ty {
                 Type::Int8(len) => return get_genotype_value(self.src, header, len, i),
-                _ => todo!("unhandled type"),
+                _ => {
+                    return Some(Some(Err(io::Error::new(
+                        io::ErrorKind::InvalidData,
+                        "invalid genotype type",
+                    ))));
+                }
             }
         }
 
-        let (number, ty) = header
+        let Some((number, ty)) = header
             .formats()
             .get(name)
             .map(|format| (format.number(), format.ty()))
-            .expect("missing type definition");
+        else {
+            return Some(Some(Err(io::Error::new(
+                io::ErrorKind::InvalidData,
+                "missing type definition",
+            ))));
+        };
 
         let value = match (number, ty, self.ty) {
-            (Number::Count(0), _, _) => todo!("invalid number for type"),
+            (Number::Count(0), _, _) => {
+                return Some(Some(Err(io::Error::new(
+                    io::ErrorKind::InvalidData,
+                    "invalid number for type",
+                ))));
+            }
 
             (_, _, Type::Int8(0) | Type::Int16(0) | Type::Int32(0) | Type::Float(0)) => {
                 return Some(Some(Err(io::Error::new(
@@ -97,7 +112,12 @@ impl<'r> Series<'r> {
                 get_string_array_value(self.src, len, i)
             }
 
-            _ => todo!("unhandled type"),
+            _ => {
+                return Some(Some(Err(io::Error::new(
+                    io::ErrorKind::InvalidData,
+                    "type mismatch",
+                ))));
+            }
         };
 
         match value {
@@ -817,6 +837,63 @@ mod tests {
         assert!(series.get(&header, 3).is_none());
 
         Ok(())
+    }
+
+    #[test]
+    fn test_get_with_invalid_type() {
+        fn t(series: &Series<'_>, header: &vcf::Header) {
+            assert!(matches!(
+                series.get(header, 0),
+                Some(Some(Err(e))) if e.kind() == io::ErrorKind::InvalidData
+            ));
+        }
+
+        // The genotype is not a vector of 8-bit integers.
+        let header =
+            build_header_with_format(key::GENOTYPE, Number::Count(1), format::Type::String);
+        let id = header
+            .string_maps()
+            .strings()
+            .get_index_of(key::GENOTYPE)
+            .unwrap();
+        let series = Series {
+            id,
+            ty: Type::Int16(1),
+            sample_count: 1,
+            src: &[0x02, 0x00],
+        };
+        t(&series, &header);
+
+        // The string map entry (PASS) has no FORMAT definition.
+        let header = vcf::Header::default();
+        let series = Series {
+            id: 0,
+            ty: Type::Int8(1),
+            sample_count: 1,
+            src: &[0x05],
+        };
+        t(&series, &header);
+
+        let header = build_header_with_format(NAME, Number::Count(0), format::Type::Integer);
+        let id = header.string_maps().strings().get_index_of(NAME).unwrap();
+        let series = Series {
+            id,
+            ty: Type::Int8(1),
+            sample_count: 1,
+            src: &[0x05],
+        };
+        t(&series, &header);
+
+        // The value type does not match the FORMAT type.
+        let header = build_header_with_format(NAME, Number::Count(1), format::Type::Integer);
+        let id = header.string_maps().strings().get_index_of(NAME).unwrap();
+        let series = Series {
+            id,
+            ty: Type::Float(1),
+            sample_count: 1,
+            src: &[0x00, 0x00, 0x00, 0x00],
+        };
+        t(&series, &header);
     }
 
     #[test]
